@@ -415,8 +415,10 @@ CohereBlockLike(C, r, path, bp, idp) ==      \* bp: path of the block-ish record
   IN IF Under(path, bp) THEN SetPath(r1, idp \o <<"hash">>, HeaderHash(C, h3)) ELSE r1
 Cohere(C, k, r, path) ==
   CASE k \in {"Block", "BlockByHash"} -> CohereBlockLike(C, r, path, <<"block">>, <<"block_id">>)
+    \* a lie about the tx keeps the GENUINE proof and fixes up the hash (only the tx/proof binding can
+    \* catch it); a lie about the proven data drags tx, hash and leaf hash along (only the root can)
     [] k = "Tx" -> IF path = <<"tx">>
-                   THEN [r EXCEPT !.hash = TxHash(r.tx), !.proof.data = r.tx, !.proof.proof.leaf = M!LeafH(TxHash(r.tx))]
+                   THEN [r EXCEPT !.hash = TxHash(r.tx)]
                    ELSE IF path = <<"proof", "data">>
                    THEN [r EXCEPT !.hash = TxHash(r.proof.data), !.tx = r.proof.data, !.proof.proof.leaf = M!LeafH(TxHash(r.proof.data))]
                    ELSE r
